@@ -136,6 +136,10 @@ fn body() -> Check {
   // a third of the with_key consumer runs has a second reader on the same topic in the same participant
   let with_sibling = consumer_form && !no_key && ch(|c| c.chance(1, 3));
   let q = qos(reliable, History::KeepAll, false);
+  // a quarter of the reliable consumer runs has a writer that keeps only its last 1-2 samples: what the
+  // reader missed may be gone for good, and a HEARTBEAT that says so makes later samples readable
+  let writer_depth: Option<i32> = if consumer_form && reliable && ch(|c| c.chance(1, 4)) { Some(1 + ch(|c| c.draw(2)) as i32) } else { None };
+  let wq = writer_depth.map(|d| qos(reliable, History::KeepLast { depth: d }, false));
   let dpw = new_participant(WNODE)?;
   let dpr = new_participant(RNODE)?;
   let kind = if no_key { TopicKind::NoKey } else { TopicKind::WithKey };
@@ -145,10 +149,10 @@ fn body() -> Check {
   let dw_k: Option<Leak<with_key::DataWriter<Msg>>> = if no_key {
     None
   } else {
-    Some(leak(pubr.create_datawriter_cdr(&tw, None).map_err(|e| herr("writer", e))?))
+    Some(leak(pubr.create_datawriter_cdr(&tw, wq.clone()).map_err(|e| herr("writer", e))?))
   };
   let dw_n: Option<Leak<no_key::DataWriter<Blob>>> = if no_key {
-    Some(leak(pubr.create_datawriter_no_key_cdr(&tw, None).map_err(|e| herr("writer", e))?))
+    Some(leak(pubr.create_datawriter_no_key_cdr(&tw, wq.clone()).map_err(|e| herr("writer", e))?))
   } else {
     None
   };
@@ -212,10 +216,11 @@ fn body() -> Check {
   e2::run_for(200 * MS)?;
 
   // ---- faults ------------------------------------------------------------------------------------------
-  let faulty = ch(|c| c.chance(2, 3));
+  // (a writer that keeps only its last samples is interesting only when the reader misses some)
+  let faulty = writer_depth.is_some() || ch(|c| c.chance(2, 3));
   if faulty {
     e2::with(|st| {
-      st.net.drop_pct = *st.ctx.ch.pick(&[0u64, 5, 20]);
+      st.net.drop_pct = if writer_depth.is_some() { *st.ctx.ch.pick(&[20u64, 35]) } else { *st.ctx.ch.pick(&[0u64, 5, 20]) };
       st.net.dup_pct = *st.ctx.ch.pick(&[0u64, 10]);
       st.net.jitter = *st.ctx.ch.pick(&[0u64, MS, 30 * MS]);
       st.faults_on = true;
@@ -225,7 +230,16 @@ fn body() -> Check {
     woken: AtomicBool::new(true), // a new task is polled once
     wakes: AtomicU64::new(0),
   });
-  let n = 1 + ch(|c| c.draw(12)) as usize;
+  let n = if writer_depth.is_some() { 6 + ch(|c| c.draw(7)) as usize } else { 1 + ch(|c| c.draw(12)) as usize };
+  // with such a writer, in half of the runs two chosen samples (k and k+2) are lost in every transmission
+  // until the faults stop: what lies between them arrives behind a hole that only a HEARTBEAT closes
+  if writer_depth.is_some() && ch(|c| c.flag()) {
+    let k = 1 + ch(|c| c.draw((n - 3) as u64)) as i64;
+    e2::with(|st| {
+      st.lose_sns.insert(k);
+      st.lose_sns.insert(k + 2);
+    });
+  }
   let sizes: Vec<usize> = (0..n).map(|_| ch(|c| *c.pick(&[4usize, 40, 1500, 3000]))).collect();
   let body_of = |i: usize| -> Vec<u8> {
     let mut b = vec![0u8; sizes[i]];
@@ -398,6 +412,24 @@ fn body() -> Check {
           let wait = ch(|c| *c.pick(&[100_000u64, MS, 20 * MS, 300 * MS]));
           app_step(&mut got, &mut polls, false, wait)?;
           sib_step(false, &mut got2, &mut polls2)?;
+          // sometimes, right after the parked application has (or has not) been served and before the
+          // world moves on: is there anything for the taking that it was not told about?  (a wake-up that
+          // only later, unrelated traffic makes up for is lost all the same)
+          if ch(|c| c.chance(1, 4)) {
+            let (b1, b2) = (got.len(), got2.len());
+            app_step(&mut got, &mut polls, true, 0)?;
+            sib_step(true, &mut got2, &mut polls2)?;
+            if got.len() > b1 || got2.len() > b2 {
+              return Err(v(
+                "C13/wake-up-lost",
+                format!(
+                  "{form:?} (reliable={reliable}, sibling={with_sibling}), in the middle of the run: the parked {} had not been woken, an unconditional look found {} sample(s) waiting",
+                  if got.len() > b1 { "application" } else { "task of the second reader" },
+                  (got.len() - b1) + (got2.len() - b2)
+                ),
+              ));
+            }
+          }
         }
       }
       e2::with(|st| {
@@ -406,7 +438,10 @@ fn body() -> Check {
       });
       // ---- bounded liveness ---------------------------------------------------------------------------------
       let deadline = simcore::now_ns() + if reliable { 30 * SEC } else { 3 * SEC };
-      while (got.len() < n || (with_sibling && got2.len() < n)) && simcore::now_ns() < deadline {
+      // (with a writer that keeps only its last samples, the last one written is what must arrive)
+      let has_last = |g: &Vec<_>| -> bool { g.iter().any(|x: &(u32, Vec<u8>)| x.1.first().copied() == Some((n - 1) as u8)) };
+      let complete = |g: &Vec<_>| -> bool { if writer_depth.is_some() { has_last(g) } else { g.len() >= n } };
+      while (!complete(&got) || (with_sibling && !complete(&got2))) && simcore::now_ns() < deadline {
         app_step(&mut got, &mut polls, false, 100 * MS)?;
         sib_step(false, &mut got2, &mut polls2)?;
       }
@@ -444,10 +479,14 @@ fn body() -> Check {
         streams.push(("the second reader", &got2));
       }
       for (who, g) in streams {
-        if reliable && g.len() < n {
+        if reliable && !complete(g) {
           return Err(v(
             "C13/sample-never-arrived",
-            format!("{form:?}: 30 s after the last write and the last fault only {} of {n} samples have arrived at {who}", g.len()),
+            format!(
+              "{form:?}: 30 s after the last write and the last fault only {} of {n} samples have arrived at {who}{}",
+              g.len(),
+              if writer_depth.is_some() { " and the last one written is not among them (the writer keeps its last samples only)" } else { "" }
+            ),
           ));
         }
         // content and order: what was written, each at most once, in order when reliable (the order of
@@ -464,6 +503,45 @@ fn body() -> Check {
           }
           last = i as i64;
         }
+      }
+      // ---- epilogue: a HEARTBEAT alone makes a sample readable -----------------------------------------
+      // The writer participant goes silent and a scripted peer speaks in its writer's name, the way a
+      // writer with a bounded history does: a sample whose predecessor never comes, then a HEARTBEAT whose
+      // first number says so (the hole closes, the sample becomes readable) and whose last number
+      // announces one more sample that is not there yet.
+      if reliable && ch(|c| c.chance(1, 2)) {
+        stall_writer_node();
+        let g = wguid.to_bytes();
+        let base = n as i64 + 20; // well beyond anything the real writer has used
+        let body = vec![0xe5u8, 1, 2, 3];
+        let payload = if no_key { blob_payload(&body) } else { msg_payload(7, &body) };
+        send_as(&g, vec![data_sub(&g, base + 1, payload)], false, 100_000);
+        for _ in 0..3 {
+          app_step(&mut got, &mut polls, false, 5 * MS)?;
+          sib_step(false, &mut got2, &mut polls2)?;
+        }
+        let (b1, b2) = (got.len(), got2.len());
+        send_as(&g, vec![hb_sub(&g, base + 1, base + 2, 1_000_000, ch(|c| c.flag()))], false, 100_000);
+        for _ in 0..4 {
+          app_step(&mut got, &mut polls, false, 5 * MS)?;
+          sib_step(false, &mut got2, &mut polls2)?;
+        }
+        let (c1, c2) = (got.len(), got2.len());
+        app_step(&mut got, &mut polls, true, 0)?;
+        sib_step(true, &mut got2, &mut polls2)?;
+        if got.len() > c1 || got2.len() > c2 {
+          return Err(v(
+            "C13/wake-up-lost",
+            format!(
+              "{form:?} (sibling={with_sibling}): a HEARTBEAT closed the hole in front of a sample that had arrived before (and announced one more): the sample became readable, the parked {} was not woken; an unconditional look found it",
+              if got.len() > c1 { "application" } else { "task of the second reader" }
+            ),
+          ));
+        }
+        if c1 > b1 {
+          e2::count("probe.sample_made_readable_by_heartbeat_delivered");
+        }
+        let _ = (b2, c2);
       }
       nontrivial = true;
       fp.u64(polls).u64(wakes);
